@@ -131,6 +131,14 @@ def scenarios(tier):
         p = dict(pre=(R(1) + R(2)).decode("latin-1"), workers=1, lookahead=la, fault_menu=[22, -1], fault_sites=["send"], max_faults=1)
         p["allowed"] = ["1", "2"]  # judged by executed-after-decision
         S.append((f"send-error-while-serving[la={la}]", p, 1))
+    # the interim response cannot be sent (disconnect errno or another error) while the body is
+    # already in the same read / arrives afterwards: a decision to close must stop the request
+    exp = R(1, method="POST", extra=["Expect: 100-continue"], body=b"hello")
+    for kind in ("same-read", "body-later"):
+        segs = [(exp.decode("latin-1"), None)] if kind == "same-read" else [(exp[:-3].decode("latin-1"), None), (exp[-3:].decode("latin-1"), None)]
+        p = dict(pre="", workers=1, lookahead=0, segments=segs, fault_menu=[104, 32, 22, -1], fault_sites=["send"], max_faults=1)
+        p["allowed"] = ["1"]  # judged by executed-after-decision
+        S.append((f"interim-send-error[{kind}]", p, 2))  # fault + one pre-emption (the worker must run before the I/O thread tears down)
     # client EOF while a request runs and another is buffered behind it
     for la in (1, 2):
         p = dict(pre=(R(1) + R(2)).decode("latin-1"), workers=1, lookahead=la, segments=[("", "eof")], release=["go"], programs={"/r1": dict(body=["ok"], block="go")})
